@@ -520,6 +520,90 @@ def check_rollback(rep):
     R.notes.append('portable C decoder: not decided by this rule - in the C loop the parked fields are followed by value-dependent returns (avail_out == 0 implies copy_overflow_length > 0 implies return), which a reaching-definitions analysis cannot separate from the roll-back exits')
 
 
+def check_trailer_consume(rep):
+    """the trailer comparators take the trailer out of the 64-bit bit buffer when it is already there; the bits removed must be exactly the
+    trailer (plus the sub-byte remainder in front of it), because the bytes behind it belong to whatever follows the stream and the position
+    reported to the caller is next_in - read_in_length / 8."""
+    import llir, irrules
+    import c19
+    R = rep.rule('R-TRAILER-CONSUME', 'check_gzip_checksum / check_zlib_checksum: on the path guarded by read_in_length >= 8*TRAILER_LEN, the value finally stored to read_in_length is, symbolically, '
+                 'old - (old mod 8) - 8*TRAILER_LEN, or the constant 0 when 8*TRAILER_LEN is the whole 64-bit buffer (forward symbolic evaluation of the stores on that path)', floor=2, unit='comparators')
+    mod = llir.library('default')
+    off = c19.field_offsets('struct inflate_state', ['read_in_length'])['read_in_length']
+    for fn in ('check_gzip_checksum', 'check_zlib_checksum'):
+        f = mod.funcs.get(fn)
+        if f is None:
+            raise AnalysisBroken(fn + ' not found')
+        R.instance()
+        P = irrules.prov(mod, f)
+        cell = {('param', 0, off)}
+        guard = None
+        for b, br, c in irrules.cond_branches(mod, f):
+            if c is not None and c.op == 'icmp' and c.extra['pred'] in ('sge', 'uge', 'sgt', 'ugt') and re.match(r'^\d+$', c.ops[1]):
+                d = f.defs.get(irrules._strip(f, c.ops[0]))
+                if d is not None and d.op == 'load' and P.atoms(d.ops[0]) == cell:
+                    k = int(c.ops[1]) + (1 if c.extra['pred'] in ('sgt', 'ugt') else 0)
+                    if guard is None or k > guard[1]:
+                        guard = (b, k, br)
+        if guard is None:
+            raise AnalysisBroken('%s: no "read_in_length >= constant" test found' % fn)
+        gb, need, br = guard
+        pd = f.postdominators()
+        cands = pd.get(gb, set()) - {gb}
+        join = None
+        for cnd in cands:
+            if cnd != '#exit' and all(o == cnd or o == '#exit' or o in pd.get(cnd, set()) for o in cands):
+                join = cnd
+        blk = br.extra['targets'][0]
+        cur = {'old': 1}            # linear form over 'old', 'oldmod8' and 1
+        ok_form = True
+        seen = set()
+        nst = 0
+
+        def ev(v):
+            if re.match(r'^-?\d+$', v):
+                return {1: int(v)} if int(v) else {}
+            d = f.defs.get(v)
+            if d is None:
+                return None
+            if d.op in ('sext', 'zext', 'trunc', 'freeze'):
+                return ev(d.ops[0])
+            if d.op == 'load' and P.atoms(d.ops[0]) == cell:
+                return dict(loadval.get(d.dst, {'?': 1}))
+            if d.op in ('sub', 'add'):
+                a, b_ = ev(d.ops[0]), ev(d.ops[1])
+                if a is None or b_ is None:
+                    return None
+                out = dict(a)
+                for k_, c_ in b_.items():
+                    out[k_] = out.get(k_, 0) + (c_ if d.op == 'add' else -c_)
+                return {k_: c_ for k_, c_ in out.items() if c_}
+            if d.op in ('srem', 'urem') and d.ops[1] == '8':
+                a = ev(d.ops[0])
+                return {'oldmod8': 1} if a == {'old': 1} else None
+            if d.op == 'and' and d.ops[1] == '7':
+                a = ev(d.ops[0])
+                return {'oldmod8': 1} if a == {'old': 1} else None
+            return None
+        loadval = {}
+        while blk is not None and blk != join and blk not in seen:
+            seen.add(blk)
+            for i in f.blocks[blk].insns:
+                if i.op == 'load' and P.atoms(i.ops[0]) == cell:
+                    loadval[i.dst] = dict(cur) if cur is not None else {'?': 1}
+                elif i.op == 'store' and P.atoms(i.ops[1]) == cell:
+                    cur = ev(i.ops[0])
+                    nst += 1
+                elif i.op == 'call' and not i.callee.startswith('llvm.') and i.callee not in irrules.READONLY_EXT and any(a[0] == 'param' and a[1] == 0 for _, v in i.args for a in P.atoms(v)):
+                    cur = None
+            succ = f.blocks[blk].succs
+            blk = succ[0] if len(succ) == 1 else None
+        good = cur is not None and ((cur == {'old': 1, 'oldmod8': -1, 1: -need}) or (cur == {} and need == 64) or (cur == {'old': 1, 1: -need} and need % 8 == 0 and need == 64))
+        R.check(nst > 0 and good, mod.where(f, br), '%s: with the trailer (%d bits) already in the bit buffer, read_in_length ends as %s; it must end as old - (old mod 8) - %d: whatever else is taken out of the buffer are bytes that follow '
+                'the stream, and the input position reported to the caller moves past the true end' % (fn, need, 'an unmodelled value' if cur is None else (cur or '0'), need), key='R-TRAILER-CONSUME|%s' % fn,
+                sample='%s: removes exactly %d bits (+ sub-byte remainder)' % (fn, need))
+
+
 def main(tier):
     rep = Report('C02', tier, level='other')
     rep.undecided = UNDECIDED
@@ -535,4 +619,5 @@ def main(tier):
         check_pregen(rep, c)
         check_mirror(rep, c)
     check_rollback(rep)
+    check_trailer_consume(rep)
     return rep.finish()
